@@ -51,9 +51,12 @@ func (r *Recorder) Events() []Ev {
 }
 
 // Lines renders the events as ndjson.
-func (r *Recorder) Lines() [][]byte {
+func (r *Recorder) Lines() [][]byte { return Marshal(r.Events()) }
+
+// Marshal renders events as ndjson lines.
+func Marshal(evs []Ev) [][]byte {
 	var out [][]byte
-	for _, e := range r.Events() {
+	for _, e := range evs {
 		b, err := json.Marshal(e)
 		if err != nil {
 			panic(err)
